@@ -3,6 +3,324 @@ pub mod u256_math {
 use vstd::prelude::*;
 use crate::errors::ErrorCode;
 use crate::specs::*;
+use std::cmp::Ordering;
+broadcast use {crate::bitlemmas::bits64, vstd::arithmetic::mul::group_mul_basics};
+//@ tags C02 C08 C09 C01 C14
 //@ const math/u256_math.rs NUM_WORDS U64_MAX U64_RESOLUTION
 //@ struct math/u256_math.rs U256Muldiv
+
+pub open spec fn Q2() -> int { 0x1_0000_0000_0000_0000_0000_0000_0000_0000int }
+pub open spec fn Q3() -> int { 0x1_0000_0000_0000_0000_0000_0000_0000_0000_0000_0000_0000_0000int }
+pub open spec fn Q4() -> int { 0x1_0000_0000_0000_0000_0000_0000_0000_0000_0000_0000_0000_0000_0000_0000_0000_0000int }
+pub proof fn lemma_q_powers()
+    ensures Q2() == Q() * Q(), Q3() == Q() * Q() * Q(), Q3() == Q2() * Q(), Q4() == Q3() * Q(), Q4() == Q2() * Q2(),
+{
+    assert(Q2() == Q() * Q()) by(compute);
+    assert(Q3() == Q() * Q() * Q()) by(compute);
+    assert(Q3() == Q2() * Q()) by(compute);
+    assert(Q4() == Q3() * Q()) by(compute);
+    assert(Q4() == Q2() * Q2()) by(compute);
+}
+
+impl U256Muldiv {
+    /// the 256-bit number denoted by the four little-endian words
+    pub open spec fn view(&self) -> int {
+        self.items[0] as int + self.items[1] as int * Q() + self.items[2] as int * Q2() + self.items[3] as int * Q3()
+    }
+}
+
+pub proof fn lemma_view_bounds(x: U256Muldiv)
+    ensures 0 <= x.view() < Q4(),
+        x.items[3] == 0 ==> x.view() < Q3(),
+        x.items[3] == 0 && x.items[2] == 0 ==> x.view() < Q2(),
+        x.items[3] != 0 ==> x.view() >= Q3(),
+        x.items[2] != 0 ==> x.view() >= Q2(),
+        x.view() == 0 <==> (x.items[0] == 0 && x.items[1] == 0 && x.items[2] == 0 && x.items[3] == 0),
+{
+}
+
+impl U256Muldiv {
+//@ fn math/u256_math.rs new in=/^impl U256Muldiv \{/ -> r
+    ensures
+        r.items[0] as int == l as int % Q(), r.items[1] as int == l as int / Q(),
+        r.items[2] as int == h as int % Q(), r.items[3] as int == h as int / Q(),
+        r.view() == h as int * Q2() + l as int,
+//@ inject at /^\{/
+    proof {
+        let q = Q();
+        assert(l as int == (l as int / q) * q + l as int % q) by { vstd::arithmetic::div_mod::lemma_fundamental_div_mod(l as int, q); }
+        assert(h as int == (h as int / q) * q + h as int % q) by { vstd::arithmetic::div_mod::lemma_fundamental_div_mod(h as int, q); }
+        let hl = h as int % q; let hh = h as int / q;
+        lemma_q_powers();
+        assert(hl * Q2() + hh * Q3() == (hh * q + hl) * Q2()) by(nonlinear_arith) requires Q3() == Q2() * q;
+    }
+//@ end
+
+//@ fn math/u256_math.rs copy in=/^impl U256Muldiv \{/ -> r stub
+    ensures r.items == self.items,
+//@ end
+
+//@ fn math/u256_math.rs update_word in=/^impl U256Muldiv \{/
+    requires index < 4,
+    ensures final(self).items@ == old(self).items@.update(index as int, value),
+//@ end
+
+//@ fn math/u256_math.rs num_words in=/^impl U256Muldiv \{/ -> r
+    ensures r <= 4, forall|k: int| r <= k < 4 ==> self.items[k] == 0, r > 0 ==> self.items[r - 1] != 0,
+//@ rewrite_rev
+//@ loop 0
+        invariant i_rev <= 4, forall|k: int| i_rev <= k < 4 ==> self.items[k] == 0,
+        decreases i_rev,
+//@ end
+
+//@ fn math/u256_math.rs get_word in=/^impl U256Muldiv \{/ -> r
+    requires index < 4,
+    ensures r == self.items[index as int],
+//@ end
+
+//@ fn math/u256_math.rs get_word_u128 in=/^impl U256Muldiv \{/ -> r
+    requires index < 4,
+    ensures r == self.items[index as int] as u128,
+//@ end
+
+//@ fn math/u256_math.rs shift_word_left in=/^impl U256Muldiv \{/ -> r
+    ensures r.items[0] == 0, r.items[1] == self.items[0], r.items[2] == self.items[1], r.items[3] == self.items[2],
+        self.items[3] == 0 ==> r.view() == self.view() * Q(),
+//@ rewrite_rev
+//@ loop 0
+        invariant i_rev <= 3, result.items[0] == 0, forall|k: int| i_rev <= k < 3 ==> result.items[k + 1] == self.items[k],
+        decreases i_rev,
+//@ inject before /^\s*result\s*$/
+    proof {
+        let q = Q();
+        assert(result.items[3] == self.items[2] && result.items[2] == self.items[1] && result.items[1] == self.items[0]);
+    }
+//@ end
+
+//@ fn math/u256_math.rs checked_shift_word_left in=/^impl U256Muldiv \{/ -> r
+    ensures
+        self.items[3] != 0 ==> r is None,
+        self.items[3] == 0 ==> r is Some && r.unwrap().view() == self.view() * Q()
+            && r.unwrap().items[0] == 0 && r.unwrap().items[1] == self.items[0] && r.unwrap().items[2] == self.items[1] && r.unwrap().items[3] == self.items[2],
+//@ end
+
+//@ fn math/u256_math.rs shift_word_right in=/^impl U256Muldiv \{/ -> r
+    ensures r.items[3] == 0, r.items[0] == self.items[1], r.items[1] == self.items[2], r.items[2] == self.items[3],
+        r.view() == self.view() / Q(),
+//@ loop 0
+        invariant result.items[3] == 0, forall|k: int| 0 <= k < i ==> result.items[k] == self.items[k + 1],
+//@ inject before /^\s*result\s*$/
+    proof {
+        let q = Q();
+        let a = self.items[0] as int; let b = self.items[1] as int; let c = self.items[2] as int; let d = self.items[3] as int;
+        assert(result.items[0] == self.items[1] && result.items[1] == self.items[2] && result.items[2] == self.items[3]);
+        assert(self.view() == (b + c * q + d * Q2()) * q + a);
+        vstd::arithmetic::div_mod::lemma_fundamental_div_mod_converse(self.view(), q, b + c * q + d * Q2(), a);
+    }
+//@ end
+
+//@ fn math/u256_math.rs lte in=/^impl U256Muldiv \{/ -> r
+    ensures r == (self.view() <= other.view()),
+//@ rewrite_rev
+//@ loop 0
+        invariant i_rev <= 4, forall|k: int| i_rev <= k < 4 ==> self.items[k] == other.items[k],
+        decreases i_rev,
+//@ inject before /match self\.items\[i\]\.cmp/
+            proof {
+                if self.items[i as int] < other.items[i as int] { lemma_cmp_words(*self, other, i as int); }
+                if self.items[i as int] > other.items[i as int] { lemma_cmp_words(other, *self, i as int); }
+            }
+//@ end
+
+//@ fn math/u256_math.rs try_into_u128 in=/^impl U256Muldiv \{/ -> r
+    ensures
+        self.view() > U128MAX() ==> r == Err::<u128, ErrorCode>(ErrorCode::NumberDownCastError),
+        self.view() <= U128MAX() ==> r == Ok::<u128, ErrorCode>(self.view() as u128),
+//@ inject at /^\{/
+    proof { lemma_view_bounds(*self); }
+//@ end
+
+//@ fn math/u256_math.rs is_zero in=/^impl U256Muldiv \{/ -> r
+    ensures r == (self.view() == 0),
+//@ loop 0
+        invariant forall|k: int| 0 <= k < i ==> self.items[k] == 0,
+//@ inject at /^\{/
+    proof { lemma_view_bounds(self); }
+//@ end
+
+//@ fn math/u256_math.rs add in=/^impl U256Muldiv \{/ -> r
+    ensures self.view() + other.view() < Q4() ==> r.view() == self.view() + other.view(),
+//@ loop 0
+        invariant
+            carry == 0 || carry == 1,
+            forall|k: int| i <= k < 4 ==> result.items[k] == 0,
+            partial_view(result, i as int) + carry as int * pow_q(i as int) == partial_view(*self, i as int) + partial_view(other, i as int),
+//@ inject before /carry = t\.hi_u128\(\);/
+            proof { lemma_add_step(*self, other, result, old_result, i as int, old_carry as int, carry_next(t) as int, t as int); }
+//@ inject before /let x = self\.get_word_u128\(i\);/
+            let ghost old_result = result; let ghost old_carry = carry;
+//@ end
+
+//@ fn math/u256_math.rs sub in=/^impl U256Muldiv \{/ -> r
+    ensures self.view() >= other.view() ==> r.view() == self.view() - other.view(),
+//@ loop 0
+        invariant
+            carry == 0 || carry == 1,
+            forall|k: int| i <= k < 4 ==> result.items[k] == 0,
+            partial_view(result, i as int) - carry as int * pow_q(i as int) == partial_view(*self, i as int) - partial_view(other, i as int),
+//@ inject before /let x = self\.get_word\(i\);/
+            let ghost old_result = result; let ghost old_carry = carry;
+//@ inject before /carry = if overflowing0 \|\| overflowing1/
+            proof { lemma_sub_step(*self, other, result, old_result, i as int, old_carry as int, (if overflowing0 || overflowing1 { 1int } else { 0int }), t1 as int); }
+//@ inject before /^\s*result\s*$/
+    proof { lemma_view_bounds(result); lemma_view_bounds(*self); lemma_view_bounds(other); }
+//@ end
+
+//@ fn math/u256_math.rs div in=/^impl U256Muldiv \{/ -> r stub
+    requires divisor.view() != 0,
+    ensures r.0.view() == self.view() / divisor.view(),
+        return_remainder ==> r.1.view() == self.view() % divisor.view(),
+        !return_remainder ==> r.1.view() == 0,
+//@ end
+}
+
+pub trait LoHi {
+    fn lo(self) -> u64;
+    fn hi(self) -> u64;
+    fn lo_u128(self) -> u128;
+    fn hi_u128(self) -> u128;
+}
+impl LoHi for u128 {
+//@ fn math/u256_math.rs lo in=/^impl LoHi for u128/ -> r
+    ensures r as int == self as int % Q(),
+//@ end
+//@ fn math/u256_math.rs lo_u128 in=/^impl LoHi for u128/ -> r
+    ensures r as int == self as int % Q(),
+//@ end
+//@ fn math/u256_math.rs hi in=/^impl LoHi for u128/ -> r
+    ensures r as int == self as int / Q(),
+//@ end
+//@ fn math/u256_math.rs hi_u128 in=/^impl LoHi for u128/ -> r
+    ensures r as int == self as int / Q(),
+//@ end
+}
+
+//@ fn math/u256_math.rs hi_lo -> r
+    ensures r as int == hi as int * Q() + lo as int,
+//@ end
+
+//@ fn math/u256_math.rs mul_u256 -> r
+    ensures r.view() == v as int * n as int,
+//@ inject before /U256Muldiv::new\(c1, c0\)/
+    proof { let q = Q();
+      let vl = v as int % q; let vh = v as int / q; let nl = n as int % q; let nh = n as int / q;
+      let p0 = vl*nl; let pa = vl*nh; let pb = vh*nl; let p3 = vh*nh;
+      assert(v as int == vh*q + vl); assert(n as int == nh*q + nl);
+      lemma_mul_split(v as int, n as int, vh, vl, nh, nl, q);
+      let mid = p0/q + pa%q + pb%q;
+      assert(c0 as int == (mid%q)*q + p0%q); assert(c1 as int == p3 + mid/q + pa/q + pb/q);
+      assert(p0 >= 0 && pa >= 0 && pb >= 0) by(nonlinear_arith) requires vl >= 0, vh >= 0, nl >= 0, nh >= 0, p0 == vl*nl, pa == vl*nh, pb == vh*nl;
+      lemma_mul_carry(p0, pa, pb, p3, c0 as int, c1 as int, q);
+      assert(Q2() == q * q) by(compute);
+      assert(c1 as int * Q2() == c1 as int * q * q) by(nonlinear_arith) requires Q2() == q * q; }
+//@ end
+
+pub open spec fn pow_q(i: int) -> int { if i <= 0 { 1 } else if i == 1 { Q() } else if i == 2 { Q2() } else if i == 3 { Q3() } else { Q4() } }
+pub open spec fn partial_view(x: U256Muldiv, i: int) -> int {
+    (if i > 0 { x.items[0] as int } else { 0 }) + (if i > 1 { x.items[1] as int * Q() } else { 0 })
+    + (if i > 2 { x.items[2] as int * Q2() } else { 0 }) + (if i > 3 { x.items[3] as int * Q3() } else { 0 })
+}
+pub open spec fn carry_next(t: u128) -> u128 { (t as int / Q()) as u128 }
+
+pub proof fn lemma_add_step(a: U256Muldiv, b: U256Muldiv, res: U256Muldiv, old_res: U256Muldiv, i: int, c0: int, c1: int, t: int)
+    requires 0 <= i < 4, c0 == 0 || c0 == 1,
+        t == a.items[i] as int + b.items[i] as int + c0,
+        c1 == t / Q(),
+        res.items@ == old_res.items@.update(i, (t % Q()) as u64),
+        partial_view(old_res, i) + c0 * pow_q(i) == partial_view(a, i) + partial_view(b, i),
+    ensures
+        c1 == 0 || c1 == 1,
+        partial_view(res, i + 1) + c1 * pow_q(i + 1) == partial_view(a, i + 1) + partial_view(b, i + 1),
+{
+    let q = Q();
+    vstd::arithmetic::div_mod::lemma_fundamental_div_mod(t, q);
+    assert(t < 2 * q);
+    assert(c1 == 0 || c1 == 1) by { if t < q { vstd::arithmetic::div_mod::lemma_basic_div(t, q); } else { vstd::arithmetic::div_mod::lemma_fundamental_div_mod_converse(t, q, 1, t - q); } }
+    let w = t % q;
+    assert(0 <= w < q);
+    assert(res.items@[i] == (w as u64));
+    assert(res.items[i] as int == w);
+    assert(forall|k: int| 0 <= k < 4 && k != i ==> res.items@[k] == old_res.items@[k]);
+    assert(partial_view(res, i) == partial_view(old_res, i));
+    assert(t == q * c1 + w);
+    if i == 0 { }
+    else if i == 1 { assert(Q2() == q * q) by(compute); assert(c1 * Q2() == (c1 * q) * q) by(nonlinear_arith) requires Q2() == q * q; }
+    else if i == 2 { assert(Q3() == Q2() * q) by(compute);  assert(c1 * Q3() == (c1 * q) * Q2()) by(nonlinear_arith) requires Q3() == Q2() * q; }
+    else { assert(Q4() == Q3() * q) by(compute);  assert(c1 * Q4() == (c1 * q) * Q3()) by(nonlinear_arith) requires Q4() == Q3() * q; }
+}
+
+pub proof fn lemma_sub_step(a: U256Muldiv, b: U256Muldiv, res: U256Muldiv, old_res: U256Muldiv, i: int, c0: int, c1: int, w: int)
+    requires 0 <= i < 4, c0 == 0 || c0 == 1, c1 == 0 || c1 == 1, 0 <= w < Q(),
+        w == a.items[i] as int - b.items[i] as int - c0 + c1 * Q(),
+        res.items@ == old_res.items@.update(i, w as u64),
+        partial_view(old_res, i) - c0 * pow_q(i) == partial_view(a, i) - partial_view(b, i),
+    ensures
+        partial_view(res, i + 1) - c1 * pow_q(i + 1) == partial_view(a, i + 1) - partial_view(b, i + 1),
+{
+    let q = Q();
+    assert(res.items@[i] == (w as u64));
+    assert(res.items[i] as int == w);
+    assert(forall|k: int| 0 <= k < 4 && k != i ==> res.items@[k] == old_res.items@[k]);
+    assert(partial_view(res, i) == partial_view(old_res, i));
+    if i == 0 { }
+    else if i == 1 { assert(Q2() == q * q) by(compute); assert(c1 * Q2() == (c1 * q) * q) by(nonlinear_arith) requires Q2() == q * q; }
+    else if i == 2 { assert(Q3() == Q2() * q) by(compute);  assert(c1 * Q3() == (c1 * q) * Q2()) by(nonlinear_arith) requires Q3() == Q2() * q; }
+    else { assert(Q4() == Q3() * q) by(compute);  assert(c1 * Q4() == (c1 * q) * Q3()) by(nonlinear_arith) requires Q4() == Q3() * q; }
+}
+
+pub proof fn lemma_mul_split(v: int, n: int, vh: int, vl: int, nh: int, nl: int, q: int)
+    requires v == vh * q + vl, n == nh * q + nl,
+    ensures v * n == (vh * nh) * q * q + (vl * nh + vh * nl) * q + vl * nl,
+{
+    let A = vh * q; let B = nh * q;
+    assert(v * n == A * n + vl * n) by(nonlinear_arith) requires v == A + vl;
+    assert(A * n == A * B + A * nl) by(nonlinear_arith) requires n == B + nl;
+    assert(vl * n == vl * B + vl * nl) by(nonlinear_arith) requires n == B + nl;
+    assert(A * B == (vh * nh) * q * q) by(nonlinear_arith) requires A == vh * q, B == nh * q;
+    assert(A * nl == (vh * nl) * q) by(nonlinear_arith) requires A == vh * q;
+    assert(vl * B == (vl * nh) * q) by(nonlinear_arith) requires B == nh * q;
+    assert((vl * nh) * q + (vh * nl) * q == (vl * nh + vh * nl) * q) by(nonlinear_arith);
+}
+
+/// carry propagation of the schoolbook 128x128 multiply, over an abstract base q
+pub proof fn lemma_mul_carry(p0: int, pa: int, pb: int, p3: int, c0: int, c1: int, q: int)
+    requires q > 0, p0 >= 0, pa >= 0, pb >= 0,
+        c0 == ((p0 / q + pa % q + pb % q) % q) * q + p0 % q,
+        c1 == p3 + (p0 / q + pa % q + pb % q) / q + pa / q + pb / q,
+    ensures c1 * q * q + c0 == p3 * q * q + (pa + pb) * q + p0,
+{
+    let mid = p0 / q + pa % q + pb % q;
+    vstd::arithmetic::div_mod::lemma_fundamental_div_mod(p0, q);
+    vstd::arithmetic::div_mod::lemma_fundamental_div_mod(pa, q);
+    vstd::arithmetic::div_mod::lemma_fundamental_div_mod(pb, q);
+    vstd::arithmetic::div_mod::lemma_fundamental_div_mod(mid, q);
+    let m1 = mid / q; let m0 = mid % q; let a1 = pa / q; let a0 = pa % q; let b1 = pb / q; let b0 = pb % q; let z1 = p0 / q; let z0 = p0 % q;
+    assert(c1 * q * q == p3 * q * q + (m1 + a1 + b1) * q * q) by(nonlinear_arith) requires c1 == p3 + m1 + a1 + b1;
+    assert((m1 + a1 + b1) * q * q == (m1 * q) * q + (a1 * q) * q + (b1 * q) * q) by(nonlinear_arith);
+    assert((pa + pb) * q == (q * a1) * q + a0 * q + (q * b1) * q + b0 * q) by(nonlinear_arith) requires pa == q * a1 + a0, pb == q * b1 + b0;
+    assert(m0 * q == mid * q - (q * m1) * q) by(nonlinear_arith) requires mid == q * m1 + m0;
+    assert(mid * q == z1 * q + a0 * q + b0 * q) by(nonlinear_arith) requires mid == z1 + a0 + b0;
+    assert((m1 * q) * q == (q * m1) * q && (a1 * q) * q == (q * a1) * q && (b1 * q) * q == (q * b1) * q) by(nonlinear_arith);
+    assert(z1 * q == q * z1) by(nonlinear_arith);
+}
+
+/// if the words above i agree and word i of a is smaller, then a < b
+pub proof fn lemma_cmp_words(a: U256Muldiv, b: U256Muldiv, i: int)
+    requires 0 <= i < 4, forall|k: int| i < k < 4 ==> a.items[k] == b.items[k], a.items[i] < b.items[i],
+    ensures a.view() < b.view(),
+{
+    if i == 0 { assert(a.items[1] == b.items[1] && a.items[2] == b.items[2] && a.items[3] == b.items[3]); }
+    else if i == 1 { assert(a.items[2] == b.items[2] && a.items[3] == b.items[3]); }
+    else if i == 2 { assert(a.items[3] == b.items[3]); }
+}
 }
